@@ -48,6 +48,18 @@ class VariableCacheProvider:
     def __init__(self):
         """Create new cache."""
         self.__cache = {}
+        self.__pinned = []
+
+    def pin(self, value):
+        """
+        Keep a processed value alive for as long as this cache is used.
+
+        The cache is keyed by id(value); if a temporary (e.g. a watch result) is released its id can be
+        given to the next temporary, which would then be reported as the first one.
+
+        :param value: the value to keep alive
+        """
+        self.__pinned.append(value)
 
     def check_id(self, identity_hash_id) -> Optional[str]:
         """
@@ -128,6 +140,7 @@ class VariableSetProcessor(Collector):
         :return:
         """
         identity_hash_id = str(id(value))
+        self.__var_cache.pin(value)
         check_id = self.__var_cache.check_id(identity_hash_id)
         if check_id is not None:
             # this means the watch result is already in the var_lookup
